@@ -252,6 +252,35 @@ def pr_req(simp, ids, t):
     return ('PR', ' '.join(['1' if simp else '0', str(len(ids))] + [str(i) for i in ids] + [PC.show(t)]))
 
 
+def _txt(o):
+    return ''.join(chr(int(c)) for c in o.split()[1:]) if o.startswith('S') else o
+
+
+def pri_witness(sides, nt, args, d, simp, ids, impl_out):
+    """implementation only: nt(*args).instantiate(d) printed `impl_out`; look for a permutation of the instantiated arguments whose DIRECT
+    application prints the same text although it denotes a different pattern and differs in a position whose renderings differ"""
+    import itertools
+    inst = sides.impl([('I', PC.show(a) + ' ' + PC.showd(d)) for a in args])
+    try:
+        args1 = [PC.parse(x) for x in inst]
+    except Exception:  # noqa: BLE001
+        return None
+    shown = [_txt(o) for o in sides.impl([pr_req(simp, ids, a) for a in args1])]
+    perms = [p for p in itertools.permutations(range(nt.arity)) if any(args1[p[i]] != args1[i] and shown[p[i]] != shown[i] for i in range(nt.arity))]
+    if not perms:
+        return None
+    outs = sides.impl([pr_req(simp, ids, nt(*[args1[i] for i in p])) for p in perms])
+    for p, o in zip(perms, outs):
+        if o != impl_out:
+            continue
+        a2 = [args1[i] for i in p]
+        x = sides.impl([('X', PC.show(nt(*args1))), ('X', PC.show(nt(*a2)))])
+        if x[0] != x[1] and 'RAISE' not in x and 'CRASH' not in x[0]:
+            return dict(notation=nt.expr, label=getattr(nt, 'label', None) or nt.expr, schema_args=[PC.show(a) for a in args], delta=PC.showd(d),
+                        args2=[PC.show(a) for a in a2], simplify=simp, ids=list(ids), text=_txt(impl_out), kind='instantiated-application')
+    return None
+
+
 def run(tier, seed):
     R = C.Report(CID, tier, seed)
     PS.drop_stale_known(R, PS.MY_PROPS)
@@ -299,15 +328,45 @@ def run(tier, seed):
         ids = sorted(ids)
         rng.shuffle(ids)
         reqs.append(pr_req(rng.random() < 0.15, ids, t))
+    # pretty(schema.instantiate(delta)): a notation applied to a mix of open and closed arguments (a lemma schema), then instantiated --
+    # the printed holes are filled from the REBUILT inst mapping, so its key order is visible here and nowhere in equality / the bytes
+    pri_meta = {}
+    for _ in range(npretty // 6):
+        nt = rng.choice(allnots)
+        args = [gen.term(rng.choice([0, 1]), notation=0.2) if rng.random() < 0.5 else PC.mv(rng.randrange(0, 4)) for _ in range(nt.arity)]
+        t = nt(*args)
+        if rng.random() < 0.3:
+            t = ('i', t, gen.term(1))
+        d = tuple((k, gen.term(rng.choice([0, 1]))) for k in rng.sample(range(5), rng.randrange(1, 4)))
+        ids = [nt.nid] if rng.random() < 0.9 else []
+        ids += [n2.nid for n2 in rng.sample(allnots, rng.randrange(0, 4)) if n2.nid not in ids]
+        simp = rng.random() < 0.15
+        reqs.append(('PRI', ' '.join(['1' if simp else '0', str(len(ids))] + [str(i) for i in ids] + [PC.show(t), PC.showd(d)])))
+        if t[0] == 'I' and t[1] is nt.definition and nt in sides.shipped and nt.nid in ids and 2 <= nt.arity <= 4:
+            pri_meta[reqs[-1]] = (nt, args, d, simp, ids)
     m = sides.model(reqs, cfg)
     im = sides.impl(reqs)
     mismatches = []
     for rq, a, b in zip(reqs, m, im):
-        R.case(rq, True, 'pretty:' + ('raise' if b == 'RAISE' else 'string'))
+        R.case(rq, True, ('pretty-inst:' if rq[0] == 'PRI' else 'pretty:') + ('raise' if b == 'RAISE' else 'string'))
         if a != b:
             mismatches.append(dict(op=rq[0], args=rq[1], model=a, impl=b))
     for rq in reqs[:4]:
         R.sample(f'{rq[0]} {rq[1][:150]}')
+    # failing-input search for a disagreement on pretty(schema.instantiate(delta)): a DIRECTLY built application of the same notation that
+    # denotes a different pattern, whose arguments are printed differently, and which prints as the same text (the property's own shape)
+    searched = 0
+    for mm in mismatches:
+        rq = (mm['op'], mm['args'])
+        if rq not in pri_meta or searched >= 12 or not mm['impl'].startswith('S'):
+            continue
+        searched += 1
+        w = pri_witness(sides, *pri_meta[rq], mm['impl'])
+        if w:
+            R.violation(f'C19:instantiated-application-prints-as-another:{w["label"]}',
+                        f'{w["notation"]} at {w["schema_args"]} instantiated with {w["delta"]} prints {w["text"]!r}, the text of the same notation at '
+                        f'{w["args2"]}, which denotes a different pattern and whose arguments are printed differently', w)
+            break
 
     # 2a. static scan of the reflected table: holes vs metavariables of the expanded definition
     drop = not cfg['f_mv_keep_subst']
@@ -459,7 +518,7 @@ def run(tier, seed):
                     {'no_failing_input_found': True, 'theorem_or_correspondence': 'correspondence mlref_py pretty/emits/pretty_step vs Pattern.pretty, SerializingInterpreter, PrettyPrintingInterpreter',
                      'first_mismatches': mismatches[:5]})
     R.coverage['rule'] = ('pretty(): every shipped notation (real objects) + families + 12 generated notations at random argument '
-                          'tuples and random patterns, random notation subsets registered, simplify on/off; distinguish: per notation '
+                          'tuples and random patterns, random notation subsets registered, simplify on/off; pretty-inst: pretty(schema.instantiate(delta)) for notation applications with open and closed arguments; distinguish: per notation '
                           'and per argument the definition depends on, two tuples differing there; modules: 5 shipped + generated '
                           'ProofExp modules (propositional lemmas, axioms, generalisation) x optimize on/off x 3 phases, every '
                           'instruction compared with its pretty step')
@@ -479,6 +538,19 @@ def replay(path):
         if nt is None:
             print('notation not found in the current tree:', rp['notation'])
             return 1
+        if rp.get('kind') == 'instantiated-application':
+            a1 = [PC.parse(a) for a in rp['schema_args']]
+            a2 = [PC.parse(a) for a in rp['args2']]
+            simp = bool(rp.get('simplify'))
+            ids = [i for i in rp.get('ids', [nt.nid]) if i < len(sides.shipped)]
+            out = sides.impl([('PRI', ' '.join(['1' if simp else '0', str(len(ids))] + [str(i) for i in ids] + [PC.show(nt(*a1)), rp['delta']])), pr_req(simp, ids, nt(*a2)),
+                              ('I', PC.show(nt(*a1)) + ' ' + rp['delta']), ('X', PC.show(nt(*a2)))])
+            x1 = sides.impl([('X', out[2])])[0] if not out[2].startswith(('RAISE', 'CRASH', 'BAD')) else out[2]
+            print(rp['notation'], 'at', rp['schema_args'], 'instantiated with', rp['delta'], '->', _txt(out[0]))
+            print(rp['notation'], 'at', rp['args2'], '->', _txt(out[1]))
+            bad = out[0] == out[1] and x1 != out[3]
+            print('VIOLATED (same text, different patterns)' if bad else 'HOLDS')
+            return 1 if bad else 0
         a1 = [PC.parse(a) for a in rp['args']]
         a2 = [PC.parse(a) for a in rp['args2']]
         out = sides.impl([pr_req(False, [nt.nid], nt(*a1)), pr_req(False, [nt.nid], nt(*a2))])
